@@ -65,6 +65,19 @@ theorem elemWidth_notZH {t : Byte} {w : Nat} (h : elemWidth t = some w) : isZH t
     rcases hc with (rfl | rfl) | rfl <;> decide
   · simp at h
 
+theorem elemWidth_isElemType {t : Byte} {w : Nat} (h : elemWidth t = some w) : isElemType t = true := by
+  unfold elemWidth at h
+  split at h
+  · rename_i hc; simp only [Bool.or_eq_true, beq_iff_eq] at hc
+    rcases hc with rfl | rfl <;> rfl
+  split at h
+  · rename_i hc; simp only [Bool.or_eq_true, beq_iff_eq] at hc
+    rcases hc with rfl | rfl <;> rfl
+  split at h
+  · rename_i hc; simp only [Bool.or_eq_true, beq_iff_eq] at hc
+    rcases hc with (rfl | rfl) | rfl <;> rfl
+  · simp at h
+
 /-- a fixed-width field is consumed whole -/
 theorem parse_fixed (fuel : Nat) (t0 t1 t : Byte) (v rest : List Byte) (acc : List (List Byte)) (w : Nat)
     (hj : jumps t = (w : Int)) (hw : 0 < w) (hv : v.length = w) :
@@ -93,7 +106,8 @@ theorem parse_zh (fuel : Nat) (t0 t1 t : Byte) (v rest : List Byte) (acc : List 
     simp
   have htk : (t0 :: t1 :: t :: (v ++ 0#8 :: rest)).take ((t0 :: t1 :: t :: v).length) = t0 :: t1 :: t :: v := by
     simp
-  simp only [parseAuxFuel, hj, ht, hi, hd, htk]
+  have hk : ¬ ((t0 :: t1 :: t :: v).length < 3) := by simp
+  simp only [parseAuxFuel, hj, ht, hi, hk, hd, htk]
   simp
 
 /-- an array is consumed whole -/
@@ -118,13 +132,11 @@ theorem parse_b (fuel : Nat) (t0 t1 sub n0 n1 n2 n3 : Byte) (elems rest : List B
   have c2 : ¬ (((elems.length + 8 : Nat) : Int) + (rest.length : Int) < ((elems.length + 8 : Nat) : Int)) := by omega
   have c3 : (((elems.length + 8 : Nat) : Int) == 0) = false := by
     simp only [beq_eq_false_iff_ne, ne_eq]; omega
-  simp only [parseAuxFuel, hB, hzh, hjv, hlen, Int.toNat_natCast, hd, htk]
+  have he : isElemType sub = true := elemWidth_isElemType hw
+  simp only [parseAuxFuel, hB, hzh, he, hjv, hlen, Int.toNat_natCast, hd, htk]
   simp
-  split
-  · omega
-  · split
-    · omega
-    · rfl
+  intro h
+  omega
 
 
 theorem auxOK_cons3 (t0 t1 t : Byte) (v : List Byte) :
